@@ -345,7 +345,7 @@ def queue_suite(ctx, vh):
 def queuewin_suite(ctx, vh):
     """Retry queue (Retries = 1): a second Emit runs, synchronously, at a chosen log line of the reply / timeout /
     retry / discard path of the first packet (public ManagerConfig.Debugger); model Sio/AckQueue.v."""
-    rows = ctx.vh_jsonl(vh, "acks", ["-mode", "queuewin", "-seed", ctx.seed, "-tier", ctx.tier], timeout=600)
+    rows = ctx.vh_jsonl(vh, "acks", ["-mode", "queuewin", "-seed", ctx.seed, "-tier", ctx.tier], timeout=300)
     if rows is None:
         return
 
@@ -354,7 +354,7 @@ def queuewin_suite(ctx, vh):
         o0, o1 = g_outcomes(r["invs0"]), g_outcomes(r["invs1"])
         if o0 is None or o1 is None:
             o0 = o1 = "[OTimeout; OTimeout]"
-        pos = s["pos"] if (r["fired"] or not s["word"]) else 99
+        pos = s["pos"] if (r["fired"] or not s["word"] or r.get("hung")) else 99
         return "(mkQcase %s %s %s %s %s %s)" % (gnat(s["kind"]), gnat(pos), o0, o1, gnat(min(r["seen0"], 50)), gnat(min(r["seen1"], 50)))
 
     def evaluate(rows, tag):
@@ -397,7 +397,8 @@ def queuewin_suite(ctx, vh):
                       "times (expected: each callback exactly once with its own outcome)"
                       % (r["spec"]["word"] or "<afterwards>", r["spec"]["occ"],
                          ["answers at once", "ignores the first attempt", "never answers packet 1"][r["spec"]["kind"]],
-                         fmt(r["invs0"]), fmt(r["invs1"]), r["seen0"], r["seen1"]),
+                         fmt(r["invs0"]) if not r.get("hung") else "nothing: the socket is wedged (an Emit or Close never returned)",
+                         fmt(r["invs1"]), r["seen0"], r["seen1"]),
                       {"kind": "failing-input", "engine": "acks", "mode": "queuewin", "case": r,
                        "replay_cmd": "vh acks -mode queuewin -only '%s'" % json.dumps([r["spec"]])})
     if (bad_a and not bad_o) or len(unfired) > 2:
